@@ -412,9 +412,11 @@ class WrapperRoles:
         if self.is_ctx_get(t):
             return ("S",)
         if t[0] == "phi":
-            # lazy initialisation idiom: phi(cv.get(), set())
+            # lazy initialisation idiom: phi(cv.get(), set()) -- only where the variable has no default: with a default,
+            # ``get()`` always gives a set, and an empty set among the alternatives means "all markers dropped"
             kinds = [self.marker_value(x) for x in t[1]]
-            if any(k == ("S",) for k in kinds) and all(k == ("S",) or _is_fresh_set(x) for k, x in zip(kinds, t[1])):
+            has_default = any(d is not None for d in self.ctxvars.values())
+            if any(k == ("S",) for k in kinds) and all(k == ("S",) or (_is_fresh_set(x) and not has_default) for k, x in zip(kinds, t[1])):
                 return ("S",)
             return None
         if t[0] == "op" and t[1] == "BitOr" and len(t[2]) == 2:
@@ -468,8 +470,17 @@ class WrapperRoles:
                     return {"kind": "ACQUIRE", "cv": recv, "key": mv[1], "idiom": "set"}
                 if mv is not None and mv[0] == "S-":
                     return {"kind": "REMOVE", "cv": recv, "key": mv[1], "idiom": "set"}
+                has_default = self.ctxvars.get(recv) is not None
                 if _is_fresh_set(at):
-                    return {"kind": "LAZYINIT", "cv": recv}
+                    return {"kind": "CLEAR", "cv": recv, "text": src_of(call)} if has_default else {"kind": "LAZYINIT", "cv": recv}
+                if at[0] == "phi":
+                    # a value chosen among several on the way here: judged by its worst alternative
+                    alts = [(self.marker_value(x), x) for x in at[1]]
+                    if has_default and any(_is_fresh_set(x) for _, x in alts):
+                        return {"kind": "CLEAR", "cv": recv, "text": src_of(call)}
+                    plus = [mv_ for mv_, _ in alts if mv_ is not None and mv_[0] == "S+"]
+                    if plus and all(mv_ is not None and mv_[0] in ("S", "S+") for mv_, _ in alts):
+                        return {"kind": "ACQUIRE", "cv": recv, "key": plus[0][1], "idiom": "set", "maybe": True}
                 return {"kind": "CTX_UNKNOWN", "cv": recv, "arg": at, "text": src_of(call)}
             if meth == "reset":
                 return {"kind": "RESTORE", "cv": recv, "arg": None, "token": True}
